@@ -12,7 +12,7 @@ real core::BuildDB, and its affinity function against the real sqlite3).  Consta
 column wiring: LLBuild/Generated/SQLiteDB.lean (extracted on every run).  The engine-level clause (restart-
 split execution = single-engine execution) is decided on the engine model, not here.
 -/
-import LLBuild.Lemmas.BuildDB
+import LLBuild.Lemmas.BuildDBSpec
 
 namespace LLBuild.BuildDB
 open LLBuild.Generated
@@ -206,5 +206,93 @@ example : (applyLookup (Conn.fresh 1 true) (applySet (Conn.fresh 1 true) (Snapsh
 -- the gate: same versions accept, another client recreates empty, the read-only opener refuses
 example : (match ensureOpen ⟨Snapshot.fresh 2, none, fun _ => none⟩ 0 (Conn.fresh 1 false) with | .error .version => true | _ => false) = true := by rfl
 example : mergedVersion 1 = 65545 := by decide
+
+/-! ## Follow-up: op sequences, any number of connections (Lemmas/BuildDBLock, BuildDBMap, BuildDBInv, BuildDBSpec) -/
+
+/-- the repaired `close()` drops the id caches (F21); read off the extracted flag -/
+theorem closeClears : SQLiteDB.closeClearsCaches = true := by decide
+
+/-- Every world reachable from the initial one by ANY op sequence (any connection slots, reads, crashes, resets)
+satisfies the global invariant `InvG`: lock bit = "some connection is inside a write transaction"; committed snapshot
+consistent; caches of every connection agree with the key_names of the snapshot it works on; ids bounded by the
+number of keys ever mentioned. -/
+theorem C03_reachable_inv (ops : List Op) : InvG (opsWeight ops) (run World.init ops) := by
+  have := InvG_run C03_stored_key_faithful closeClears ops 0 World.init InvG_init
+  simpa using this
+
+/-- "Everything a build records [...] is read back identically": REFINEMENT.  For every op sequence over any number of
+connections, the model (key_names, ids, blobs, caches, two lookup paths) and the durable-map specification
+(`Key → Option Result`, `set k r` = `map[k] := r`; `sstep`) end in the same abstract state and give the same answer
+to EVERY op on the way: each `lookup` answers exactly `map[k]` (value, signature, epochs, dependency list with both
+flags in order; never `corrupt` / `dangling`), each `keys` lists exactly the graph of the map, each key once.
+Hypothesis: fewer than 2^62 keys are mentioned (the id field of the dependency blob has 62 bits). -/
+theorem C03_refines_map (ops : List Op) (hsmall : opsWeight ops < 2 ^ 62) :
+    absWorld (run World.init ops) = srun SWorld.init ops ∧
+    TraceMatch (trace World.init ops) (strace SWorld.init ops) := by
+  have := run_refines C03_stored_key_faithful closeClears ops 0 World.init InvG_init (by omega)
+  rw [absWorld_init] at this
+  exact this
+
+/-- FRAME, in every reachable world: `setRuleResult k r` on connection `c` leaves the answer of `lookupRuleResult k'`
+for every other key `k'` exactly as it was — although it may append to key_names, rewrite the row list, fill both id
+caches, reopen or even recreate the file. -/
+theorem C03_frame (ops : List Op) (c : Nat) (k k' : Bytes) (r : Result) (hk : k' ≠ k)
+    (hsmall : opsWeight ops + (r.deps.length + 1) < 2 ^ 62) :
+    (step (step (run World.init ops) (.set c k r)).1 (.lookup c k')).2 = (step (run World.init ops) (.lookup c k')).2 :=
+  frame_of_inv C03_stored_key_faithful closeClears (C03_reachable_inv ops) c k k' r hk hsmall
+
+/-- read-your-writes in every reachable world: a `setRuleResult k r` that answered `ok` is followed by `lookup k = r` -/
+theorem C03_read_your_writes_seq (ops : List Op) (c : Nat) (k : Bytes) (r : Result)
+    (hok : (step (run World.init ops) (.set c k r)).2 = .ok) (hsmall : opsWeight ops + (r.deps.length + 1) < 2 ^ 62) :
+    (step (step (run World.init ops) (.set c k r)).1 (.lookup c k)).2 = .result r :=
+  ryw_of_inv C03_stored_key_faithful closeClears (C03_reachable_inv ops) c k r hok hsmall
+
+/-- "a second engine cannot write to a database while another build holds it", as an INVARIANT: one step of any op
+of any connection preserves `LockOK` together with its converse (the lock holder is inside a transaction). -/
+theorem C03_lock_step (w : World) (h : LockOK w) (h' : ∀ c, w.lock = some c → ∃ cn, w.conns c = some cn ∧ cn.state = .inTxn)
+    (op : Op) : LockOK (step w op).1 ∧ ∀ c, (step w op).1.lock = some c → ∃ cn, (step w op).1.conns c = some cn ∧ cn.state = .inTxn :=
+  let r := LockInv_step ⟨h, h'⟩ op
+  ⟨r.holder, r.held⟩
+
+/-- SINGLE WRITER: after any op sequence over any number of connections, (1) every connection inside a write
+transaction is the lock holder, (2) at most one connection is inside a write transaction, (3) the lock is held only by a
+connection that is inside one (no stale lock after drop / new / complete / crash). -/
+theorem C03_single_writer (ops : List Op) :
+    LockOK (run World.init ops) ∧
+    (∀ c c' cn cn', (run World.init ops).conns c = some cn → cn.state = .inTxn →
+      (run World.init ops).conns c' = some cn' → cn'.state = .inTxn → c = c') ∧
+    (∀ c, (run World.init ops).lock = some c → ∃ cn, (run World.init ops).conns c = some cn ∧ cn.state = .inTxn) := by
+  have h := LockInv_run ops World.init LockInv_init
+  refine ⟨h.holder, ?_, h.held⟩
+  intro c c' cn cn' hc hs hc' hs'
+  have h1 := h.holder c cn hc hs
+  have h2 := h.holder c' cn' hc' hs'
+  rw [h1] at h2
+  injection h2
+
+/-- consequently, in every reachable world, while connection `o` is inside its transaction every write of every
+other connection is refused with `busy` and changes nothing (the hypothesis of `C03_writes_need_lock` is met). -/
+theorem C03_other_writers_refused (ops : List Op) (o c : Nat) (cn : Conn) (ho : (run World.init ops).conns o = some cn)
+    (hs : cn.state = .inTxn) (hne : c ≠ o) : blocked (run World.init ops) c = true := by
+  have := (C03_single_writer ops).1 o cn ho hs
+  unfold blocked
+  rw [this]
+  simpa using fun h : o = c => hne h.symm
+
+/-! Non-vacuity: two connections, interleaved; client 2 takes the file over (recreate); the budget hypothesis holds,
+the model's answers are the ones the map specification gives. -/
+def exampleSeq : List Op :=
+  [.new 0 1 true, .new 1 1 true, .start 0, .set 0 [97] ⟨[1], 5, 1, 1, [⟨[98], true, false⟩, ⟨[99], false, true⟩]⟩,
+   .set 1 [100] ⟨[9], 9, 1, 1, []⟩, .lookup 0 [97], .lookup 0 [98], .setiter 0 1, .complete 0, .lookup 1 [97],
+   .set 1 [98] ⟨[2], 6, 2, 2, []⟩, .lookup 1 [97], .new 2 2 true, .lookup 2 [97]]
+
+example : opsWeight exampleSeq < 2 ^ 62 := by decide
+example : trace World.init exampleSeq =
+    [.ok, .ok, .ok, .ok, .err .busy,
+     .result ⟨[1], 5, 1, 1, [⟨[98], true, false⟩, ⟨[99], false, true⟩]⟩, .absent, .ok, .ok,
+     .result ⟨[1], 5, 1, 1, [⟨[98], true, false⟩, ⟨[99], false, true⟩]⟩, .ok,
+     .result ⟨[1], 5, 1, 1, [⟨[98], true, false⟩, ⟨[99], false, true⟩]⟩, .ok, .absent] := by decide
+-- the blocked writer of `C03_other_writers_refused` exists: after `start 0`, connection 0 is inside its transaction
+example : ((run World.init (exampleSeq.take 3)).conns 0).map (·.state) = some .inTxn := by decide
 
 end LLBuild.BuildDB
